@@ -32,6 +32,7 @@ def install(I):
         I.path_state.setdefault('leaves_read', []).append(key)
         return ok(rt.rational(leaves[key]))
     def db_lookup(I, m, a, dt):
+        if I.path_state.get('real_lookup'): raise Fallthrough()      # execute the crate's own Db::lookup (tantivy calls are stubs)
         f = I.path_state.get('lookup')
         if f is None: raise PathEnd('panic', 'Db::lookup reached without an environment stub')
         return f(I, gs(I, a[1]))
@@ -61,7 +62,7 @@ def run_query(I, s, describe=False, max_results=64, evaluate=True):
     if not evaluate: return out
     ch = I.call("Tree::<Syntax, u32, u32>::children", [VRef(Cell(tree), [])])
     descs = Cell(coll.vec([]))
-    db = VRef(Cell(VObj('db')), [])
+    db = I.path_state.get('dbref') or VRef(Cell(VObj('db')), [])
     q = VStruct('query::Query', [VStruct('eval::Context', []), VRef(Cell(s), []), db, ch, VStruct('query::Options', [VBool(describe)]), VRef(descs, [])])
     qc = Cell(q)
     for _ in range(max_results):
